@@ -150,6 +150,7 @@ class Broker:
             * trade.contract.margin_requirement
         )
         margin_actual = self._holdings_margins[trade.contract]
+        quantity_held = self._holdings_quantity[trade.contract]
         margin_diff = margin_expected - margin_actual
 
         # Pay transaction costs.
@@ -172,7 +173,18 @@ class Broker:
             self._holdings_quantity[trade.contract] = 0.
 
         # Update _margin requirements. Bid-ask spread is implicitly paid
-        # here and now.
+        # here and now, on the traded quantity only: the position held before
+        # the trade is carried from its last marking price to the acquisition
+        # price, so that it is not charged the spread again.
+        if trade.contract.margin_requirement != 0:
+            last_price = self._last_marking_to_market_price.get(
+                trade.contract, trade.acq_price
+            )
+            self._holdings_margins[trade.contract] += (
+                quantity_held
+                * trade.contract.multiplier
+                * (trade.acq_price - last_price)
+            )
         self._last_marking_to_market_price[trade.contract] = trade.acq_price
         self.marking_to_market(trade.contract)
 
